@@ -9,7 +9,9 @@ correspondence: closed forms: translator IR in binary64 vs spreading_pressure();
                 point isotherms: the hand model evaluated inside Coq on the rows of random isotherms vs spreading_pressure_at
 oracle/search : on the implementation: p dPi/dp == n (Richardson central differences), Pi(p) - Pi(q) and Pi(p) vs numerical quadrature
                 of the implementation's own loading(x)/x, Pi(0) == 0, increasing; ModelIsotherm.spreading_pressure_at converts first;
-                PointIsotherm.spreading_pressure_at (always on a FRESH isotherm) vs quadrature of its own interpolant
+                PointIsotherm.spreading_pressure_at - on a FRESH isotherm AND on one that has answered other calls - vs quadrature of its
+                own interpolant; range guard: above the data CalculationError, below the first point the Henry value (Models/SpreadPoint.v
+                sp_point_at); statelessness: the same model OBJECT re-parametrised and asked again at pressures already seen == a fresh model
 """
 import math
 import random
@@ -36,11 +38,17 @@ MANIFEST = dict(
          "conversion of the rows is taken from the isotherm's own accessors (C03); IEEE rounding excluded. The cached-interpolator range guard is C04's.",
     technique="Coq proof (auto_derive / is_RInt_derive / Chasles, induction over rows) on generated formulas + hand model; interval-arithmetic correspondence; numerical-quadrature search")
 
-# quad-based models (Toth, JensenSeaton, DR, DA): the implementation calls scipy.integrate.quad with default tolerances on an integrand that is
-# steep near 0; measured accuracy of the returned value is 1e-4..1e-5 relative (scipy warns 'maximum number of subdivisions'). The property does
-# not fix a tolerance; 2e-3 relative is judged as quadrature noise, and the finite-difference Gibbs test (which amplifies that noise by 1/h) only
-# catches gross errors there. The exact statement for these models is the Coq theorem *_spreading_is_quad_of_own_loading.
-QUAD_TOL = dict(gibbs=0.5, additive=2e-3, from0=2e-3)
+# quad-based models: the implementation calls scipy.integrate.quad with default tolerances. Measured on 300 random in-bounds cases per model
+# (relative deviation from an adaptive quadrature with epsrel 1e-12 of the implementation's own loading(x)/x):
+#   Toth, Jensen-Seaton: Gibbs (Richardson differences) <= 3e-8, interval <= 1e-8, from 0 <= 7e-9  -> judged at 1e-4 / 1e-5 / 1e-5
+#   DR, DA (integrand exp(-(RT ln(1/x)/e)^m)/x, steep near 0; scipy warns 'maximum number of subdivisions'): the returned Pi carries an ABSOLUTE
+#   error of up to ~1e-4 Pi, so an interval difference is judged relative to Pi(p) (2e-3), from 0 at 1e-4, and the finite-difference Gibbs test
+#   (which amplifies that noise by 1/h; observed up to 0.37) only catches gross errors (0.5).
+# The property does not fix a tolerance; the exact statement for these models is the Coq theorem *_spreading_is_quad_of_own_loading.
+QUAD_TOL = {'Toth': dict(gibbs=1e-4, additive=1e-5, from0=1e-5, additive_rel_to_total=False),
+            'JensenSeaton': dict(gibbs=1e-4, additive=1e-5, from0=1e-5, additive_rel_to_total=False),
+            'DR': dict(gibbs=0.5, additive=2e-3, from0=1e-4, additive_rel_to_total=True),
+            'DA': dict(gibbs=0.5, additive=2e-3, from0=1e-4, additive_rel_to_total=True)}
 FUN_TOL = dict(gibbs=2e-6, additive=1e-9, from0=1e-9)
 
 
@@ -146,7 +154,7 @@ def explore(rep, tier, seed):
     for name in models:
         sp = SPECS[name]
         is_quad = ir is not None and ir[name]['methods']['spreading_pressure']['kind'] == 'quad'
-        tol = QUAD_TOL if is_quad else FUN_TOL
+        tol = QUAD_TOL.get(name, QUAD_TOL['DR']) if is_quad else FUN_TOL
         for _ in range(n_param if not is_quad else max(3, n_param // 2)):
             params, attrs = fl.sample_case(name, rnd)
             m = fl.make_model(name, params, attrs)
@@ -176,7 +184,7 @@ def explore(rep, tier, seed):
                 I = integrate.quad(lambda x: load(x) / x, q, p, epsabs=1e-13, epsrel=1e-12, limit=200)[0]
                 dd = Pi(p) - Pi(q)
                 evals += 1
-                ok = abs(dd - I) <= tol['additive'] * abs(I)
+                ok = abs(dd - I) <= tol['additive'] * (max(abs(I), abs(Pi(p))) if tol.get('additive_rel_to_total') else abs(I))
                 bump('additive:' + ('ok' if ok else 'FAIL'))
                 if ok:
                     nontrivial.add((name, tuple(sorted(params.items())), p, q))
@@ -204,6 +212,10 @@ def explore(rep, tier, seed):
                 fail('exception', '%s: %s: %s' % (name, type(e).__name__, str(e)[:120]))
             if len(samples) < 5 and rnd.random() < 0.08:
                 samples.append({'model': name, 'params': params, 'p': p, 'Pi(p)': Pi(p), 'loading(p)': load(p)})
+            # ---- "of that same isotherm": the value belongs to the object's CURRENT parameters. Same object, parameters replaced, asked again at
+            # pressures it has already answered (p, q, the grid end) == a freshly built model with the new parameters (memoisation keyed on the
+            # pressure alone, derived quantities computed once ... would show here)
+            evals += stale_after_reparametrisation(rep, name, m, params, attrs, [p, q, fl.r3(hi * 0.5)], rnd, bump)
     # ------------------------------------------------------------ ModelIsotherm.spreading_pressure_at converts the pressure first
     try:
         evals += model_isotherm_spreading(rep, rnd, 10 if thorough else 4, bump)
@@ -222,15 +234,62 @@ def explore(rep, tier, seed):
     rep.cov['distinct_nontrivial'] = len(nontrivial)
     rep.cov['rule'] = ('models: random parameter vectors strictly inside the bounds x one pressure p of the validity range and one q in (0.2p, 0.8p): Gibbs identity by '
                        'Richardson central differences, Pi(p)-Pi(q) and Pi(p) against adaptive quadrature of the implementation\'s loading(x)/x, Pi(0), a 12-point grid; '
-                       'point isotherms: random strictly increasing data (4-9 rows) x query pressures below the first point / at knots / between / at the edge / above '
-                       'x unit arguments, each on a fresh isotherm. non-trivial = distinct (model, parameters, p, q) whose interval integral agreed + distinct '
+                       'every model object is then re-parametrised and asked again at the pressures it has already answered (== a fresh model); '
+                       'point isotherms: random strictly increasing pressures (4-9 rows) with Langmuir / random / S-shaped / plateau (consecutive equal loadings) data x query '
+                       'pressures below the first point / at knots / between / beyond a flat segment / at the edge / just above and far above x unit arguments, each on a fresh '
+                       'isotherm AND on one isotherm per data set that has answered 1-4 other calls (interpolations with and without fill values, refused calls). non-trivial = distinct (model, parameters, p, q) whose interval integral agreed + distinct '
                        '(isotherm, query, units) whose Coq evaluation agreed at a pressure above the first data point')
     rep.cov['input_distribution'] = dict(sorted(hist.items()))
     rep.cov['samples'] += samples
     rep.cov['trusted_base'] += ['translator tools/py2v_formulas.py (validated: IR in binary64 + interval goals)', 'hand model Models/SpreadPoint.v (executed against the implementation)',
                                 'oracles: scipy.integrate.quad, scipy.interpolate.interp1d; isotherm accessors pressure()/loading() for unit arguments (C03)']
-    rep.assumptions += ['pressures of the validity range (N p < 1, K p < 1, 0 < p <= 1 for DR/DA)', 'point isotherms: strictly increasing positive pressures; calls on a fresh isotherm',
-                        'tolerances: closed forms 1e-9 (integral) / 2e-6 (derivative); quad-based 2e-5 / 3e-2; point isotherms 1e-9']
+    rep.assumptions += ['pressures of the validity range (N p < 1, K p < 1, 0 < p <= 1 for DR/DA)', 'point isotherms: strictly increasing positive pressures, non-decreasing loadings; calls without interp_fill',
+                        'tolerances: closed forms 1e-9 (integral) / 2e-6 (derivative); Toth, Jensen-Seaton 1e-5 / 1e-4; DR, DA 2e-3 of Pi(p) / gross errors only; point isotherms 1e-9']
+
+
+def same_outcome(a, b):
+    """two (class, value) outcomes of the same deterministic computation"""
+    if a[0] != b[0]:
+        return False
+    if a[0] != 'Ok':
+        return True
+    x, y = a[1], b[1]
+    return (x != x and y != y) or x == y or abs(x - y) <= 1e-12 * max(abs(x), abs(y))
+
+
+def call_outcome(f, *a, **kw):
+    try:
+        return ('Ok', float(np.ravel(f(*a, **kw))[0]))
+    except Exception as e:  # noqa
+        return (type(e).__name__, None)
+
+
+def stale_after_reparametrisation(rep, name, m, params, attrs, seen, rnd, bump, params2=None, attrs2=None):
+    """m has already evaluated spreading_pressure (and loading) at the pressures `seen` with `params`; give the SAME object new parameters
+    and compare with a fresh model at the same pressures. Returns the number of evaluations."""
+    if params2 is None:
+        params2, attrs2 = fl.sample_case(name, rnd)
+    for x in seen:                       # make sure every one of them has really been asked with the old parameters
+        call_outcome(m.spreading_pressure, x), call_outcome(m.loading, x)
+    m.params.update(params2)
+    for k, v in attrs2.items():
+        setattr(m, k, v)
+    fresh = fl.make_model(name, params2, attrs2)
+    n = 0
+    for x in seen:
+        for meth in ('spreading_pressure', 'loading'):
+            a, b = call_outcome(getattr(m, meth), x), call_outcome(getattr(fresh, meth), x)
+            n += 1
+            ok = same_outcome(a, b)
+            bump('reparametrised:%s:%s' % (meth, 'ok' if ok else 'FAIL'))
+            if not ok:
+                rep.failure('C11:unclassified:%s:stale-after-parameter-change:%s' % (name, meth),
+                            '%s: %s(%r) on an object whose parameters were changed from %r to %r = %r, a fresh model gives %r'
+                            % (name, meth, x, params, params2, a, b),
+                            {'model': name, 'params': params, 'attrs': attrs, 'params2': params2, 'attrs2': attrs2, 'p': x, 'q': x,
+                             'seen': [float(v) for v in seen], 'clause': 'stale-after-parameter-change'})
+                return n
+    return n
 
 
 def integral_goal(cls, params, attrs, a, p, value):
@@ -263,7 +322,7 @@ def model_isotherm_spreading(rep, rnd, n, bump):
             m = fl.make_model(name, params, attrs)
             lo, hi = SPECS[name].prange(params)
             p = math.exp(rnd.uniform(math.log(lo * 3), math.log(hi * 0.8)))
-            for mode, unit in (('absolute', 'bar'), ('relative', None)):
+            for mode, unit in (('relative', None), ('absolute', 'bar')):      # absolute last: its model object is re-parametrised at the end
                 iso = pygaps.ModelIsotherm(model=m, material=mat, adsorbate=key, temperature=77.355, pressure_mode=mode, pressure_unit=unit,
                                            loading_basis='molar', loading_unit='mmol', material_basis='mass', material_unit='g')
                 ads = iso.adsorbate
@@ -291,6 +350,22 @@ def model_isotherm_spreading(rep, rnd, n, bump):
                     bump('modeliso:' + ('ok' if ok else 'FAIL'))
                     if not ok:
                         rep.failure(classify(name, params, 'modeliso-units'), 'ModelIsotherm(%s).spreading_pressure_at(%r, %r) = %r, bare model at the converted pressure %r' % (mode, arg, kw, got, want), rp)
+                if mode == 'absolute':
+                    # the isotherm's model object gets new parameters (a re-fit on the same instance): the same queries again == a fresh isotherm
+                    params2, attrs2 = fl.sample_case(name, rnd)
+                    iso.model.params.update(params2)
+                    iso2 = pygaps.ModelIsotherm(model=fl.make_model(name, params2, attrs2), material=mat, adsorbate=key, temperature=77.355, pressure_mode=mode,
+                                                pressure_unit=unit, loading_basis='molar', loading_unit='mmol', material_basis='mass', material_unit='g')
+                    for kw in queries[:2]:
+                        arg = float(c_pressure(p, mode, kw.get('pressure_mode', mode), unit, kw.get('pressure_unit', unit), ads, 77.355)) if kw else p
+                        a, b = call_outcome(iso.spreading_pressure_at, arg, **kw), call_outcome(iso2.spreading_pressure_at, arg, **kw)
+                        count += 1
+                        ok = same_outcome(a, b)
+                        bump('modeliso-reparametrised:' + ('ok' if ok else 'FAIL'))
+                        if not ok:
+                            rep.failure('C11:unclassified:%s:modeliso-stale-after-parameter-change' % name,
+                                        'ModelIsotherm.spreading_pressure_at(%r, %r) after its model was re-parametrised (%r -> %r) = %r, a fresh isotherm gives %r'
+                                        % (arg, kw, params, params2, a, b), dict(rp, params2=params2, attrs2=attrs2, clause='modeliso-stale'))
     return count
 
 
@@ -308,28 +383,72 @@ def make_point_iso(P, L, punit='bar', lunit='mmol'):
 PT_HEADER = fl.GOAL_HEADER.replace('Models.EvalTac', 'Models.SpreadPoint Models.EvalTac') + 'From Coq Require Import List.\nImport ListNotations.\n'
 
 
+def point_rows(rnd):
+    """random strictly increasing pressures with non-decreasing loadings; the shapes include saturated data (consecutive EQUAL loadings: a
+    plateau segment has slope 0 and contributes q ln(p2/p1)), steps and S-shapes"""
+    nrows = rnd.randint(4, 9)
+    P = sorted({fl.r3(math.exp(rnd.uniform(math.log(1e-3), math.log(5.0)))) for _ in range(nrows)})
+    if len(P) < 4:
+        return None
+    shape = rnd.choice(['langmuir', 'random', 'sshape', 'plateau', 'plateau'])
+    if shape == 'langmuir':
+        L = [fl.r3(8 * 3 * x / (1 + 3 * x)) for x in P]
+    elif shape == 'random':
+        L = sorted(fl.r3(rnd.uniform(0.1, 10)) for _ in P)
+    elif shape == 'plateau':
+        # one or two flat stretches somewhere in the data (in the middle and/or at saturation)
+        L = sorted(fl.r3(rnd.uniform(0.1, 10)) for _ in P)
+        for _ in range(rnd.randint(1, 2)):
+            a = rnd.randrange(0, len(P) - 1)
+            b = min(len(P), a + rnd.randint(2, 3))
+            for t in range(a, b):
+                L[t] = L[a]
+        L = [max(L[:t + 1]) for t in range(len(L))]
+    else:
+        L = [fl.r3(6 * x * x / (0.5 + x * x) + 0.05) for x in P]
+    return P, L, shape
+
+
+def warm_up(iso, P, L, rnd):
+    """calls that leave state behind in the isotherm object (cached interpolators with various fill values)"""
+    mid = math.sqrt(P[1] * P[-2])
+    calls = [lambda: iso.loading_at(mid), lambda: iso.pressure_at((L[0] + L[-1]) / 2), lambda: iso.spreading_pressure_at(mid),
+             lambda: iso.loading_at(P[-1] * 2, interp_fill='extrapolate'), lambda: iso.loading_at(P[-1] * 2, interp_fill=(0.0, L[-1])),
+             lambda: iso.spreading_pressure_at(P[-1] * 1.5, interp_fill=L[-1]), lambda: iso.loading_at(mid * 100, pressure_unit='kPa'),
+             lambda: iso.spreading_pressure_at(P[0] / 2), lambda: iso.spreading_pressure_at(P[-1] * 3)]
+    done = []
+    for k in rnd.sample(range(len(calls)), rnd.randint(1, 4)):
+        try:
+            calls[k]()
+        except Exception:  # noqa  (refusals are part of the history)
+            pass
+        done.append(k)
+    return done
+
+
 def point_isotherms(rep, rnd, n_iso, bump, nontrivial):
-    """hand model (inside Coq) vs PointIsotherm.spreading_pressure_at on fresh isotherms; and the implementation against quadrature of its own interpolant"""
+    """PointIsotherm.spreading_pressure_at on fresh AND on used isotherms: outcome class and value against the hand model executed inside
+    Coq (sp_point_at: range guard + integral), and against quadrature of the implementation's own interpolant"""
     from scipy import integrate
+    from fractions import Fraction
     goals = []
     count = 0
+    edge_rounding = 0
     for k in range(n_iso):
-        nrows = rnd.randint(4, 9)
-        P = sorted({fl.r3(math.exp(rnd.uniform(math.log(1e-3), math.log(5.0)))) for _ in range(nrows)})
-        if len(P) < 3:
+        made = point_rows(rnd)
+        if made is None:
             continue
-        shape = rnd.choice(['langmuir', 'random', 'sshape'])
-        if shape == 'langmuir':
-            L = [fl.r3(8 * 3 * x / (1 + 3 * x)) for x in P]
-        elif shape == 'random':
-            L = sorted(fl.r3(rnd.uniform(0.1, 10)) for _ in P)
-        else:
-            L = [fl.r3(6 * x * x / (0.5 + x * x) + 0.05) for x in P]
+        P, L, shape = made
+        flat_ends = [P[t + 1] for t in range(len(P) - 1) if L[t + 1] == L[t]]
         queries = [('below', P[0] * rnd.uniform(0.05, 0.9)), ('first-knot', P[0]), ('knot', rnd.choice(P[1:-1])), ('edge', P[-1]),
-                   ('between', rnd.uniform(P[0], P[-1])), ('between', rnd.uniform(P[-2], P[-1])), ('above', P[-1] * 1.3)]
+                   ('between', rnd.uniform(P[0], P[-1])), ('between', rnd.uniform(P[-2], P[-1])), ('above', P[-1] * rnd.choice([1.0000001, 1.3, 10.0]))]
+        if flat_ends and flat_ends[0] < P[-1]:
+            queries.append(('between', rnd.uniform(flat_ends[0], P[-1])))       # beyond a flat segment: it is one of the COMPLETE segments
+        used = make_point_iso(P, L)
+        history = warm_up(used, P, L, rnd)
         for where, pq in queries:
-            pq = fl.r3(pq) if where in ('below', 'between', 'above') else pq
-            if where == 'between' and pq in P:
+            pq = fl.r3(pq) if where in ('below', 'between') else pq
+            if where == 'between' and (pq in P or not P[0] < pq < P[-1]):
                 continue
             units = rnd.choice([dict(), dict(), dict(pressure_unit='kPa'), dict(pressure_unit='torr', loading_unit='mol'), dict(loading_unit='mol')])
             iso = make_point_iso(P, L)
@@ -337,31 +456,40 @@ def point_isotherms(rep, rnd, n_iso, bump, nontrivial):
             rows_l = [float(x) for x in iso.loading(branch='ads', **({'loading_unit': units['loading_unit']} if 'loading_unit' in units else {}))]
             scale = rows_p[0] / P[0]
             arg = pq * scale if where in ('below', 'between', 'above') else rows_p[P.index(pq)]
+            if where == 'above' and not arg > rows_p[-1]:
+                continue
             if where == 'edge' and 'pressure_unit' in units:
                 # in foreign units the edge value converted back to native units can land 1 ulp above the last stored pressure (binary64
-                # rounding of the two conversions; then interp1d refuses): rounding is outside the property, so stay a hair inside
+                # rounding of the two conversions; then interp1d refuses with ValueError): rounding is outside the property, so the judged
+                # query stays a hair inside; how often the exact edge is refused is recorded in the evidence (edge_rounding_refusals)
+                if call_outcome(make_point_iso(P, L).spreading_pressure_at, arg, **units)[0] != 'Ok':
+                    edge_rounding += 1
                 arg = arg * (1 - 1e-9)
-            iso = make_point_iso(P, L)          # FRESH isotherm for the call (the range guard reads the cached interpolator: C04)
             count += 1
-            rp = {'P': P, 'L': L, 'query': arg, 'where': where, 'units': units, 'clause': 'point'}
-            try:
-                got = float(iso.spreading_pressure_at(arg, **units))
-                oc = 'Ok'
-            except Exception as e:  # noqa
-                got, oc = None, type(e).__name__
-            bump('point:%s:%s' % (where, oc))
+            rp = {'P': P, 'L': L, 'query': arg, 'where': where, 'units': units, 'clause': 'point', 'history': history}
+            fresh_oc = call_outcome(make_point_iso(P, L).spreading_pressure_at, arg, **units)
+            used_oc = call_outcome(used.spreading_pressure_at, arg, **units)
+            bump('point:%s:%s' % (where, fresh_oc[0]))
+            # the outcome is a function of the data and the argument: the same on the used isotherm
+            if not same_outcome(fresh_oc, used_oc):
+                rep.failure('C11:unclassified:point:%s:depends-on-earlier-calls' % where,
+                            'spreading_pressure_at(%r, %r) [%s]: fresh isotherm %r, after the calls %r on the same data %r' % (arg, units, where, fresh_oc, history, used_oc), rp)
+                continue
+            oc, got = fresh_oc
+            rows = '[' + '; '.join('(%s, %s)' % (fl.rlit(a), fl.rlit(b)) for a, b in zip(rows_p, rows_l)) + ']'
             if where == 'above':
-                if oc == 'Ok':
-                    rep.failure('C11:unclassified:point:above-range-answered', 'spreading_pressure_at(%r) above the data range returned %r' % (arg, got), rp)
+                # the model refuses (sp_point_at = CalculationError, decided inside Coq on the same rows) and so must the implementation
+                goals.append((rp, 'Goal sp_point_at %s %s = CalculationError.\nProof. sp_point_refused. Qed.\n' % (rows, fl.rlit(arg))))
+                if oc != 'CalculationError':
+                    rep.failure('C11:unclassified:point:above-range-%s' % ('answered' if oc == 'Ok' else oc),
+                                'spreading_pressure_at(%r) above the data range (max %r): %s %r, expected CalculationError' % (arg, rows_p[-1], oc, got), rp)
                 continue
             if oc != 'Ok':
-                rep.failure('C11:unclassified:point:%s:%s' % (where, oc), 'spreading_pressure_at(%r) [%s] on a fresh isotherm raised %s' % (arg, where, oc), rp)
+                rep.failure('C11:unclassified:point:%s:%s' % (where, oc), 'spreading_pressure_at(%r) [%s] inside the data range raised %s' % (arg, where, oc), rp)
                 continue
-            # (a) correspondence: the hand-written model, same rows, inside Coq
-            rows = '[' + '; '.join('(%s, %s)' % (fl.rlit(a), fl.rlit(b)) for a, b in zip(rows_p, rows_l)) + ']'
-            from fractions import Fraction
+            # (a) correspondence: the hand-written model of the CALL, same rows, inside Coq: answered, and the value agrees
             tol = fl.rlit(Fraction(abs(got) * 1e-9 + 1e-13).limit_denominator(10 ** 30))
-            goals.append((rp, 'Goal Rabs (sp_point %s %s - %s) <= %s.\nProof. sp_point_interval. Qed.\n' % (rows, fl.rlit(arg), fl.rlit(got), tol)))
+            goals.append((rp, 'Goal exists v, sp_point_at %s %s = Value v /\\ Rabs (v - %s) <= %s.\nProof. sp_point_answered. Qed.\n' % (rows, fl.rlit(arg), fl.rlit(got), tol)))
             # (b) oracle: quadrature of the implementation's own interpolant, Henry line below the first point
             iso2 = make_point_iso(P, L)
             f = lambda x: float(iso2.loading_at(x, **units)) / x
@@ -375,9 +503,12 @@ def point_isotherms(rep, rnd, n_iso, bump, nontrivial):
                 rep.failure('C11:unclassified:point:%s:integral' % where, 'spreading_pressure_at(%r) = %r but Henry head + integral of loading_at(x)/x = %r' % (arg, got, head + tail), rp)
             elif arg > rows_p[0]:
                 nontrivial.add(('point', tuple(P), tuple(L), arg, tuple(sorted(units.items()))))
+                if flat_ends and arg > flat_ends[0] * scale:
+                    bump('point:beyond-a-flat-segment')
     n_ok, failed = fl.run_goals('c11p', [(str(i), g) for i, (rp, g) in enumerate(goals)], header=PT_HEADER, per_file=10)
     for label, msg in failed[:5]:
         rep.broken_obligation('correspondence:SpreadPoint-vs-implementation', {'case': goals[int(label)][0], 'coq': msg})
+    rep.cov.setdefault('correspondence', {})['edge_rounding_refusals'] = edge_rounding
     return count, len(failed), len(goals)
 
 
@@ -387,12 +518,26 @@ def replay(d):
     np.seterr(all='ignore')
     r = d['replay']
     if r.get('clause') == 'point':
-        iso = make_point_iso(r['P'], r['L'])
         print('rows', r['P'], r['L'], 'query', r['query'], r['where'], r['units'])
-        try:
-            print('spreading_pressure_at ->', iso.spreading_pressure_at(r['query'], **r['units']))
-        except Exception as e:  # noqa
-            print('raised', type(e).__name__, str(e)[:200])
+        print('fresh isotherm: spreading_pressure_at ->', call_outcome(make_point_iso(r['P'], r['L']).spreading_pressure_at, r['query'], **r['units']))
+        iso = make_point_iso(r['P'], r['L'])
+        P, L = r['P'], r['L']
+        mid = math.sqrt(P[1] * P[-2])
+        for c in (lambda: iso.loading_at(mid), lambda: iso.pressure_at((L[0] + L[-1]) / 2), lambda: iso.spreading_pressure_at(mid),
+                  lambda: iso.loading_at(P[-1] * 2, interp_fill='extrapolate'), lambda: iso.spreading_pressure_at(P[-1] * 1.5, interp_fill=L[-1])):
+            call_outcome(c)
+        print('used isotherm : spreading_pressure_at ->', call_outcome(iso.spreading_pressure_at, r['query'], **r['units']))
+        return 1
+    if r.get('clause') == 'stale-after-parameter-change':
+        m = fl.make_model(r['model'], r['params'], r.get('attrs'))
+        for x in r['seen']:
+            print('old parameters %r: Pi(%r) = %r' % (r['params'], x, call_outcome(m.spreading_pressure, x)))
+        m.params.update(r['params2'])
+        for k, v in (r.get('attrs2') or {}).items():
+            setattr(m, k, v)
+        fresh = fl.make_model(r['model'], r['params2'], r.get('attrs2'))
+        for x in r['seen']:
+            print('new parameters %r: same object Pi(%r) = %r, fresh model %r' % (r['params2'], x, call_outcome(m.spreading_pressure, x), call_outcome(fresh.spreading_pressure, x)))
         return 1
     m = fl.make_model(r['model'], r['params'], r.get('attrs'))
     print('model', r['model'], r['params'], r.get('attrs'), 'clause', r.get('clause'))
